@@ -45,6 +45,15 @@ def fixed_cases():
     yield {'t': ['grp', ['cat', [['t', 'a'], ['line'], ['t', 'b'], ['hard'], ['t', 'c']]]], 'w': 10, 'frac': 1.0, 'strategy': 'smart'}
     yield {'t': ['cat', [['t', 'a'], ['t', ' b '], ['hard'], ['t', ' c'], ['t', ' '], ['t', ' ']]], 'w': 10, 'frac': 1.0, 'strategy': 'smart'}
     yield from _d28_cases()
+    # annotated content that follows a group on its line (annotations never change the text)
+    Tx = lambda s: ['t', s]
+    g = ['grp', ['cat', [Tx('aa'), ['line'], Tx('bb')]]]
+    for tail in (['ann', 0, ['cat', [Tx('c'), ['line'], Tx('dddd')]]], ['ann', 1, ['cat', [['line'], Tx('ddd')]]],
+                 ['nest', 2, ['ann', 0, ['cat', [['line'], Tx('eeee'), ['soft'], Tx('f')]]]], ['ann', 0, ['ann', 1, ['cat', [Tx('c'), ['soft'], Tx('dd')]]]]):
+        for s in ('smart', 'fast'):
+            for w in range(3, 13):
+                yield {'t': ['cat', [g, tail]], 'w': w, 'frac': 1.0, 'strategy': s}
+                yield {'t': ['cat', [g, Tx(' '), tail, ['line'], g]], 'w': w, 'frac': 0.6, 'strategy': s}
     # the same document object laid out again (documents of more than four nodes)
     T = lambda s: ['t', s]
     for t in (['grp', ['cat', [['line'], ['ab', ['line']]]]],
